@@ -32,7 +32,15 @@ func enumRoots() []RootD {
 		rowRoot("row", "a"),
 		rowRoot("prow", "c"),
 		anyMapRoot(),
+		eRootRoot("data"),
+		eRootRoot("pdata"),
 	}
+}
+
+// eRootRoot: a struct embedding another struct as root data, by value or by pointer.
+func eRootRoot(kind string) RootD {
+	d := vERoot("r")
+	return RootD{Kind: kind, Data: &d, Map: map[string]VD{"x": vStr("rx")}}
 }
 
 // anyMapRoot: a map[any]any as root data (string keys of the universe plus an int key), with a
@@ -120,6 +128,8 @@ func zoo() []VD {
 		"ps": vList("ptr", vList("slice", vInt(1), vStr("b"))),
 		"pm": vList("ptr", vMap("map", map[string]VD{"k": vInt(1)})),
 		"nl": vNil(),
+		"er": vERoot("z"),
+		"pe": vList("ptr", vERoot("pz")),
 	})
 	b := vList("slice",
 		zooNode("s0", false),
@@ -416,7 +426,7 @@ func (g genCtx) val(t *rapid.T, depth int) VD {
 		}
 		return l
 	}
-	switch rapid.IntRange(0, 32).Draw(t, "kind") {
+	switch rapid.IntRange(0, 34).Draw(t, "kind") {
 	case 0, 1:
 		return g.val(t, 0)
 	case 2, 3, 4:
@@ -464,6 +474,15 @@ func (g genCtx) val(t *rapid.T, depth int) VD {
 			}
 		}
 		return VD{K: kind, M: m}
+	case 33, 34:
+		e := vERoot(rapid.SampledFrom([]string{"a", "b"}).Draw(t, "etag"))
+		if depth > 1 {
+			e.M["Val"] = g.val(t, depth-1)
+		}
+		if rapid.Bool().Draw(t, "eptr") {
+			return vList("ptr", e)
+		}
+		return e
 	case 27, 28, 29:
 		return vRow(rapid.SampledFrom([]string{"a", "b", "c"}).Draw(t, "rowv"), rapid.IntRange(0, 9).Draw(t, "rid"), rapid.SampledFrom([]string{"", "t1", "t2"}).Draw(t, "rtitle"), "n")
 	case 16:
@@ -634,7 +653,11 @@ func genSeq(t *rapid.T, rec *ev.Rec, known *kf.File) SeqCase {
 		return m
 	}
 	var root RootD
-	switch rapid.IntRange(0, 8).Draw(t, "root") {
+	switch rapid.IntRange(0, 10).Draw(t, "root") {
+	case 9:
+		root = eRootRoot("data")
+	case 10:
+		root = eRootRoot("pdata")
 	case 8:
 		root = anyMapRoot()
 		for k, v := range bindings(3) {
@@ -674,7 +697,16 @@ func genSeq(t *rapid.T, rec *ev.Rec, known *kf.File) SeqCase {
 		c.EnvSkip = []string{"Tagged", "Sub"}
 		rec.Excluded(kfGoName)
 	}
-	if root.Kind == "data" && known.Open(kfMapRoot) {
+	if root.Data != nil && root.Data.K == "eroot" {
+		c.Names = append(eNames(known.Open(kfPromotedTag)), "y", "Plain", "ID")
+		if known.Open(kfPromotedTag) {
+			rec.Excluded(kfPromotedTag)
+		}
+		if known.Open(kfPromotedEnv) {
+			c.EnvSkip = ePromoted
+			rec.Excluded(kfPromotedEnv)
+		}
+	} else if root.Kind == "data" && known.Open(kfMapRoot) {
 		c.EnvSkip = bigUniverse
 		rec.Excluded(kfMapRoot)
 	}
